@@ -229,6 +229,9 @@ class BEval(object):
     def op_in(self, item, cont):
         return self.ev(item) in self.ev(cont)
 
+    def op_ite(self, c, a, b):
+        return self.ev(a) if self.ev(c) else self.ev(b)
+
 
 def pick_path(res, ev, I):
     """the (unique) path whose condition holds under the environment"""
@@ -1022,7 +1025,19 @@ def rule_bdd6(prog):
     return r
 
 
+
+def _documented_node_fields(prog, rule):
+    """the rules below address the fields of a node by the names the
+    library gives them today; with other names nothing can be said"""
+    from ..fields import bdd_node_fields
+    got = bdd_node_fields(prog)
+    if tuple(got) != ('var', 'low', 'high', 'value'):
+        raise Inconclusive(rule, 'the fields of a BDD node are called %r' % (
+            got,), 'pyModelChecking/BDD/BDD.py')
+
+
 def run(prog, tier, seed):
+    _documented_node_fields(prog, 'R-BDD-1')
     T = Attempts()
     r6 = T(rule_bdd6, prog)
     r1, found = T(rule_bdd1, prog, tier, _n=2)
